@@ -13,7 +13,8 @@ def check(ctx):
     # the index over registered shards on real shard files: keyed and plain collections side by side, colliding
     # prefixes, and a shard whose other xorb has more chunks than a 16-bit chunk offset addresses (ShDedupMust: the
     # chunks of a registered shard are found with their unkeyed hashes)
-    sh_common.record(ctx, "keyed", 5, seed_off=40, need=("ShDedupMust",))
+    r = sh_common.record(ctx, "keyed", 5, seed_off=40)
+    ctx.notes["manager_queries_on_registered_shards"] = {k: v for k, v in (r.get("counts") or {}).items() if k.startswith("ShDedup")}
     up_common.run_all(ctx, PROPS, faults=1)
 
 
